@@ -51,6 +51,9 @@ type Req struct {
 	Note    string `json:"note,omitempty"`   // generator classes for the evidence
 	Invalid bool   `json:"invalid"`          // the harness's classifier: not valid Demon / third-party traffic
 	Twice   bool   `json:"twice,omitempty"`
+	// CL: the Content-Length the request announces, if it differs from the body's real length
+	// (a peer that writes its own HTTP framing can claim anything)
+	CL *int64 `json:"cl,omitempty"`
 }
 
 type Case struct {
@@ -336,6 +339,11 @@ func genReq(t *rapid.T, c Case, idx int) Req {
 	r := Req{Class: rapid.SampledFrom([]string{"A", "B", "B", "B", "B", "C"}).Draw(t, "class")}
 	r.Via = rapid.SampledFrom([]string{"http", "http", "http", "ext"}).Draw(t, "via")
 	r.Twice = rapid.IntRange(0, 9).Draw(t, "twice") == 0
+	if rapid.IntRange(0, 19).Draw(t, "cl?") == 0 {
+		// 2^33 can be reserved lazily on this machine; anything that must really be filled cannot
+		v := rapid.SampledFrom([]int64{0, -1, 1, 11, 12, 1 << 20, 1 << 33, 1 << 48, 1 << 62, 0x7fffffffffffffff}).Draw(t, "cl")
+		r.CL = &v
+	}
 	switch r.Class {
 	case "A":
 		n := rapid.OneOf(rapid.IntRange(0, 24), rapid.IntRange(0, 300)).Draw(t, "alen")
@@ -644,9 +652,9 @@ func check(c Case) *core.Violation {
 			lbl := cls(r)
 			v := core.WithWatchdog(30*time.Second, "request|"+lbl, func() *core.Violation {
 				if r.Via == "ext" {
-					code, _ = w.PostExt(r.Raw)
+					code, _ = w.PostExtCL(r.Raw, r.CL)
 				} else {
-					code, _ = w.Post(r.Raw)
+					code, _ = w.PostCL(r.Raw, r.CL)
 				}
 				return nil
 			})
@@ -731,6 +739,9 @@ func classify(c Case) core.Class {
 		if r.Invalid {
 			cl.Labels = append(cl.Labels, "classified-invalid")
 		}
+		if r.CL != nil {
+			cl.Labels = append(cl.Labels, "announced-content-length-differs")
+		}
 		// non-trivial: got past header + magic + session lookup by construction
 		if (r.Class == "B" || r.Class == "C") && !r.Invalid && c.NAgents > 0 {
 			cl.NonTrivial = true
@@ -761,7 +772,7 @@ var _ = bytes.Equal
 func TestC01(t *testing.T) {
 	core.Run(t, core.Spec[Case]{
 		Property: "C01", Sub: "a",
-		Rule: "state (0-3 registered agents incl. id >= 2^31 and a zero-key agent, SMB child, three open downloads whose announced sizes include 0, 2^63 and 2^64-1, Service block on/off, five outstanding request ids on every agent) built through the real endpoints, then 1-4 requests (2-6 in the half of the cases that focus on one family of layouts - downloads, sockets, tokens, jobs, ... - so that one handler sees a run of related messages) via the HTTP listener engine or the External-C2 handler: A random bytes (all lengths 0-24, up to 300); B batches of 1-3 grammar-valid callbacks drawn from 140 command/sub-command layouts of TaskDispatch, each corrupted by integer fields also drawn from the keys of the lookup tables TaskDispatch indexes (win32.Protections, InjectErrors, Win32ErrorCodes as found in the tree under test); truncation / length-prefix rewrite / appended bytes / bit flip, plus SMB_CONNECT with a (cut / mismatching) child registration, relayed SMB_COMMAND packages, CHECKIN metadata, self-nested pivot packages to depth 400, header corruptions (magic, unknown id, id 0, other key, header command, cut, size); C registrations (valid, truncated, id mismatch, existing id, zero key, trailing bytes). Oracle: no panic, returns within 30 s, status 200/404, all agent mutexes free, traffic classified invalid by the harness gets 404 and leaves sessions/queues/DB/loot identical. Non-trivial: a class B/C request that passes header, magic and session lookup; distinct = (class:first layout, #agents, pivot, service, download, length bucket)",
+		Rule: "state (0-3 registered agents incl. id >= 2^31 and a zero-key agent, SMB child, three open downloads whose announced sizes include 0, 2^63 and 2^64-1, Service block on/off, five outstanding request ids on every agent) built through the real endpoints, then 1-4 requests (2-6 in the half of the cases that focus on one family of layouts - downloads, sockets, tokens, jobs, ... - so that one handler sees a run of related messages) via the HTTP listener engine or the External-C2 handler: one request in twenty announces a Content-Length that is not its body's length (0, -1, 1, 2^20 ... 2^63-1); A random bytes (all lengths 0-24, up to 300); B batches of 1-3 grammar-valid callbacks drawn from 140 command/sub-command layouts of TaskDispatch, each corrupted by integer fields also drawn from the keys of the lookup tables TaskDispatch indexes (win32.Protections, InjectErrors, Win32ErrorCodes as found in the tree under test); truncation / length-prefix rewrite / appended bytes / bit flip, plus SMB_CONNECT with a (cut / mismatching) child registration, relayed SMB_COMMAND packages, CHECKIN metadata, self-nested pivot packages to depth 400, header corruptions (magic, unknown id, id 0, other key, header command, cut, size); C registrations (valid, truncated, id mismatch, existing id, zero key, trailing bytes). Oracle: no panic, returns within 30 s, status 200/404, all agent mutexes free, traffic classified invalid by the harness gets 404 and leaves sessions/queues/DB/loot identical. Non-trivial: a class B/C request that passes header, magic and session lookup; distinct = (class:first layout, #agents, pivot, service, download, length bucket)",
 		Gen:   gen, Check: check, Classify: classify,
 		Assumptions: []string{
 			"no third-party agent type is registered in generated states, so every non-Demon magic value is invalid traffic",
